@@ -580,6 +580,12 @@ def unit_layouts(u):
                         res.harness.append("more calls recorded than the generator expects: %s" % c["code"])
                         break
                     exp_src = c["lams"][i]
+                    if "{S}" in exp_src:
+                        strs = [k for k in f.__code__.co_consts if isinstance(k, str) and "\n" in k]
+                        if len(strs) != 1:
+                            res.harness.append("cannot read the multi-line string constant from the passed function: %s" % c["code"])
+                            continue
+                        exp_src = exp_src.replace("{S}", repr(strs[0]))
                     # layouts whose lambda captures a variable spell out what each call has to record
                     truth_src = c["truths"][i] if "truths" in c else exp_src
                     if f.__name__ == "<lambda>" and "truths" not in c and not same_code(f.__code__, _lambda_code(exp_src)):
